@@ -55,18 +55,22 @@ fn target_of(a: &Action) -> Option<(Dest, Option<char>)> {
 fn place(acts: Vec<Action>, r: &mut Rng) -> Expression {
     let mut e: Option<Expression> = None;
     for a in acts {
-        let node = match r.below(4) {
+        let node = match r.below(6) {
             0 => act(a),
             1 => or(not(act(a)), t(Test::True)), // ! A -o true : A always runs
             2 => and(t(Test::True), act(a)),
-            _ => or(t(Test::False), act(a)),
+            3 => or(t(Test::False), act(a)),
+            // explicit grouping nodes, which only hand-built trees contain: the action sits below one
+            4 => prec(act(a)),
+            _ => prec(and(t(Test::True), prec(act(a)))),
         };
         e = Some(match e {
             None => node,
-            Some(prev) => match r.below(3) {
+            Some(prev) => match r.below(4) {
                 0 => list(prev, node),
                 1 => and(prev, node),
-                _ => list(prev, or(node, t(Test::True))),
+                2 => list(prev, or(node, t(Test::True))),
+                _ => prec(list(prev, node)),
             },
         });
     }
